@@ -448,6 +448,125 @@ pub fn check_big(mv: &MV) -> CaseResult {
     }
 }
 
+/// One atom of a megabyte or more: faults in the middle of its text.
+#[derive(Clone, Debug, serde::Serialize, serde::Deserialize, Hash)]
+pub struct Huge {
+    /// 0 string, 1 symbol, 2 keyword, 3 bytes, 4 string with an escape every 64 KiB
+    pub kind: u8,
+    pub len: usize,
+    pub top_level: bool,
+}
+
+fn huge_value(h: &Huge) -> lexpr::Value {
+    let body = |first: char| {
+        let mut t = String::with_capacity(h.len + 8);
+        t.push(first);
+        while t.len() < h.len {
+            t.push('a');
+        }
+        t
+    };
+    let atom = match h.kind {
+        0 => lexpr::Value::string(body('s')),
+        1 => lexpr::Value::symbol(body('y')),
+        2 => lexpr::Value::keyword(body('k')),
+        3 => lexpr::Value::from((0..h.len / 4).map(|i| (i % 251) as u8).collect::<Vec<u8>>()),
+        _ => {
+            let mut t = body('e');
+            let mut i = 65536;
+            while i < t.len() {
+                t.replace_range(i..i + 1, "\"");
+                i += 65536;
+            }
+            lexpr::Value::string(t)
+        }
+    };
+    if h.top_level {
+        atom
+    } else {
+        lexpr::Value::list(vec![lexpr::Value::from(1), atom, lexpr::Value::symbol("end")])
+    }
+}
+
+/// Sink for the megabyte cases: accepts up to `chunk` bytes per call; at
+/// offset `at` it answers according to `fault` (0 = Ok(0) from then on, 1 =
+/// Ok(0) once, 2 = an error once, 3 = an error from then on).
+struct HugeSink {
+    buf: Vec<u8>,
+    chunk: usize,
+    at: usize,
+    fault: u8,
+    fired: bool,
+}
+impl io::Write for HugeSink {
+    fn write(&mut self, data: &[u8]) -> io::Result<usize> {
+        if self.buf.len() >= self.at && (!self.fired || self.fault == 0 || self.fault == 3) && self.fault < 4 {
+            self.fired = true;
+            return if self.fault <= 1 { Ok(0) } else { Err(io::Error::new(io::ErrorKind::Other, "sink refuses")) };
+        }
+        let room = if self.fired || self.fault >= 4 { self.chunk } else { self.chunk.min(self.at - self.buf.len()) };
+        let n = data.len().min(room.max(1));
+        self.buf.extend_from_slice(&data[..n]);
+        Ok(n)
+    }
+    fn flush(&mut self) -> io::Result<()> {
+        Ok(())
+    }
+}
+
+pub fn check_huge(h: &Huge) -> CaseResult {
+    let case = || json!({"huge": h});
+    let kind = ["string", "symbol", "keyword", "bytes", "string-with-escapes"][h.kind as usize % 5];
+    let fail = |sig: String, msg: String| Failure::new(format!("C07 huge kind={} {}", kind, sig), msg, case());
+    let v = huge_value(h);
+    let r = catch(|| -> Result<(), (String, String)> {
+        let text = lexpr::to_string(&v).map_err(|e| ("reference-print-error".to_string(), e.to_string()))?;
+        let p = POpt::default_set();
+        let n = text.len();
+        for entry in [0usize, 3] {
+            // short writes only: everything arrives
+            for chunk in [65536usize, 1 << 20, usize::MAX] {
+                let mut sink = HugeSink { buf: Vec::with_capacity(n), chunk, at: 0, fault: 4, fired: false };
+                let res = match entry {
+                    0 => lexpr::to_writer(&mut sink, &v),
+                    _ => Printer::with_options(&mut sink, p.to_lexpr()).print(&v),
+                };
+                if res.is_err() || sink.buf != text.as_bytes() {
+                    return Err((format!("entry={} fault=short-write", ENTRIES[entry]), format!("{} with at most {} bytes per call delivered {} of {} bytes, ok={}", ENTRIES[entry], chunk, sink.buf.len(), n, res.is_ok())));
+                }
+            }
+            for at in [0usize, 5, n / 2, n - 2, n - 1] {
+                for fault in 0u8..4 {
+                    let mut sink = HugeSink { buf: Vec::with_capacity(n), chunk: 1 << 18, at, fault, fired: false };
+                    let res = match entry {
+                        0 => lexpr::to_writer(&mut sink, &v),
+                        _ => Printer::with_options(&mut sink, p.to_lexpr()).print(&v),
+                    };
+                    let what = ["accepts nothing from there on", "accepts nothing once", "fails once", "fails from there on"][fault as usize];
+                    if res.is_ok() {
+                        return Err((
+                            format!("entry={} fault={} ok-on-error", ENTRIES[entry], ["zero", "zero-once", "error-once", "error"][fault as usize]),
+                            format!("{} reported success although the sink {} at offset {} of {}; {} bytes delivered", ENTRIES[entry], what, at, n, sink.buf.len()),
+                        ));
+                    }
+                    if !text.as_bytes().starts_with(&sink.buf) {
+                        return Err((
+                            format!("entry={} fault={} not-a-prefix", ENTRIES[entry], ["zero", "zero-once", "error-once", "error"][fault as usize]),
+                            format!("{}: what the sink received before and after it {} at offset {} is not a prefix of the text", ENTRIES[entry], what, at),
+                        ));
+                    }
+                }
+            }
+        }
+        Ok(())
+    });
+    match r {
+        Err(pm) => Err(fail(format!("panic={}", panic_sig(&pm)), format!("panicked: {}", pm))),
+        Ok(Err((sig, msg))) => Err(fail(sig, msg)),
+        Ok(Ok(())) => Ok(Eval::new(true, digest_of(h)).class("huge:checked")),
+    }
+}
+
 fn g_sched() -> BS<Sched> {
     prop_oneof![
         4 => prop_oneof![Just(1usize), Just(2), Just(3), Just(5), 1usize..40].prop_map(Sched::Max),
@@ -514,6 +633,23 @@ fn run(ctx: &mut Ctx) {
         ctx.absorb(c);
     }
     ctx.run_prop("big", tier.pick(40, 400), g_big_atom(tier.pick(65536, 131072)), check_big);
+    // atoms of a megabyte and more (4 and 16 MiB in the thorough tier)
+    {
+        use rayon::prelude::*;
+        let mut hs = Vec::new();
+        let lens: Vec<usize> = match tier {
+            Tier::Quick => vec![(1 << 20) + 17, 1 << 20],
+            Tier::Thorough => vec![(1 << 20) + 17, 1 << 20, (1 << 22) + 1, (1 << 24) + 3],
+        };
+        for kind in 0u8..5 {
+            for &len in &lens {
+                for top_level in [true, false] {
+                    hs.push(Huge { kind, len, top_level });
+                }
+            }
+        }
+        ctx.par_sweep("huge", hs.into_par_iter(), |h| check_huge(&h));
+    }
     // fixed battery: the value of the design document under every k and every offset
     let battery = vec![
         MV::list(vec![MV::U(12345), MV::I(-678), MV::f(1.5), MV::Bytes(vec![200, 100])]),
@@ -540,6 +676,10 @@ fn run(ctx: &mut Ctx) {
 }
 
 fn replay(_sub: &str, case: &Json) -> Option<CaseResult> {
+    if let Some(h) = case.get("huge") {
+        let h: Huge = serde_json::from_value(h.clone()).ok()?;
+        return Some(check_huge(&h));
+    }
     if let Some(b) = case.get("big") {
         let mv: MV = serde_json::from_value(b.clone()).ok()?;
         return Some(check_big(&mv));
